@@ -225,11 +225,31 @@ C05v(line, pre) ==
          IN (IF brought < needMin /\ ~clamped THEN {<<"C05", "insufficient", g, "">>} ELSE {})
             \cup (IF brought > needMin + 1 THEN {<<"C05", "more-than-one-extra", g, "">>} ELSE {})
         : g \in Groups(pre)}
-C05f(line, pre) == UNION {IF C05Applies(line, pre, g) THEN {"C05:scale-up"} ELSE {} : g \in Groups(pre)}
+\* from zero: sized with the node size this controller lifetime observed last (the harness keeps that as a ghost, independently of the
+\* controller's own cache), or exactly one node when it never observed one
+C05ZeroApplies(line, pre, g) ==
+  /\ ListedOK(line, g) /\ NoFaults(line) /\ ~Dry(pre, g) /\ ~pre.groups[g].lag /\ ~CtlLocked(pre, g) /\ ~pre.groups[g].cfg.fleet
+  /\ InBounds(line, pre, g) /\ UntSet(pre, g) = {} /\ TntSet(pre, g) = {} /\ MinOf(line, pre, g) = 0
+  /\ (ReqCpu(pre.groups[g]) > 0 \/ ReqMem(pre.groups[g]) > 0) /\ line.ret = "nil" /\ ~line.panic /\ ~line.hang
+  /\ ~Starved(line, pre, g)
+  /\ Listed(pre, g) = {}      \* no node is listed at all, so the size used is the remembered one
+C05z(line, pre) ==
+  UNION {IF ~C05ZeroApplies(line, pre, g) THEN {} ELSE
+         LET gs == pre.groups[g]
+             sd == SetDesireds(line, g)
+             bound == Min2(MaxOf(line, pre, g), CloudMax(line, pre, g))
+             brought == IF Len(sd) > 0 /\ sd[1].ok THEN sd[1].a - sd[1].b ELSE 0
+             clamped == (Len(sd) > 0 /\ sd[1].a = bound) \/ (Len(sd) = 0 /\ bound - pre.groups[g].asg.desired <= 0)
+             need == IF gs.seenCpu = 0 \/ gs.seenMem = 0 THEN 1
+                     ELSE Max2(CeilDiv(100 * ReqCpu(gs), gs.cfg.up * gs.seenCpu), CeilDiv(100 * ReqMem(gs), gs.cfg.up * gs.seenMem))
+         IN (IF brought < need /\ ~clamped THEN {<<"C05", "from-zero-insufficient-for-last-observed-size", g, "">>} ELSE {})
+            \cup (IF brought > need + 1 \/ ((gs.seenCpu = 0 \/ gs.seenMem = 0) /\ brought > 1) THEN {<<"C05", "from-zero-too-many-for-last-observed-size", g, "">>} ELSE {})
+        : g \in Groups(pre)}
+C05f(line, pre) == UNION {(IF C05Applies(line, pre, g) THEN {"C05:scale-up"} ELSE {}) \cup (IF C05ZeroApplies(line, pre, g) THEN {"C05:ctl-from-zero"} ELSE {}) : g \in Groups(pre)}
 
 -----------------------------------------------------------------------------
 \* C07 — tainted nodes are reused (newest first) before capacity is bought
-C07Applies(line, pre, exp, g) == ListedOK(line, g) /\ ~Dry(pre, g) /\ ~pre.groups[g].lag /\ exp.res[g].branch \in {"up", "below_min"}
+C07Applies(line, pre, exp, g) == ListedOK(line, g) /\ ~line.crash /\ ~Dry(pre, g) /\ ~pre.groups[g].lag /\ exp.res[g].branch \in {"up", "below_min"}
 C07v(line, pre, post, exp) ==
   UNION {IF ~C07Applies(line, pre, exp, g) THEN {} ELSE
          LET N == IF exp.res[g].branch = "below_min" THEN MinOf(line, pre, g) - Cardinality(UntSet(pre, g)) ELSE post.groups[g].ctl.delta
@@ -244,6 +264,8 @@ C07v(line, pre, post, exp) ==
              rest == N - Cardinality(U)
          IN (IF TntSet(pre, g) # {} /\ ~SelectOKSeq(created, -1, TntSet(pre, g), N, fails, att) THEN {<<"C07", "not-newest-first", g, "">>} ELSE {})
             \cup (IF TntSet(pre, g) = {} /\ U # {} THEN {<<"C07", "untainted-an-untainted-node", g, "">>} ELSE {})
+            \* a scan that needs more nodes reuses its tainted nodes: it does not remove one of them (force-tainted nodes excepted)
+            \cup {<<"C07", "removed-a-tainted-node-in-a-scale-up-scan", g, n>> : n \in (TermAttempt(line, g) \cup DelAttempt(line, g)) \cap TntSet(pre, g)}
             \cup (IF Len(sd) > 0 /\ (TntSet(pre, g) \ U) \ fails # {} THEN {<<"C07", "bought-while-tainted-node-left", g, "">>} ELSE {})
             \cup (IF Len(sd) > 0 /\ ~pre.groups[g].cfg.fleet /\ sd[1].a - sd[1].b # Min2(rest, bound - sd[1].b)
                     THEN {<<"C07", "request-not-remainder-on-current", g, "">>} ELSE {})
@@ -348,6 +370,10 @@ C12v(line, pre) ==
   \cup (IF line.ret = "nil" /\ ~line.panic /\ ~line.hang /\ ~line.exit /\ \E i \in 1..Len(pre.gorder) : ~\E j \in 1..Len(line.calls) :
             line.calls[j].op = "list_pods" /\ line.calls[j].g = pre.gorder[i]
         THEN {<<"C12", "later-group-not-processed", "", "">>} ELSE {})
+C12g(line, pre) ==   \* each group is evaluated only from the pods selecting it: the request totals the scan exported are those of its own pods
+  UNION {IF GaugeSet(line, g) /\ ListedOK(line, g) /\ line.gauges[g].exact
+            /\ (line.gauges[g].cpuReq # ReqCpu(pre.groups[g]) \/ line.gauges[g].memReq # ReqMem(pre.groups[g]))
+         THEN {<<"C12", "group-evaluated-from-other-pods-than-its-own", g, "">>} ELSE {} : g \in Groups(pre)}
 C12x(line, pre, exp) ==   \* a failure that the specification classifies as non-fatal stopped the scan before the later groups
   IF line.ret # "nil" /\ ~line.crash /\ ~line.panic /\ ~line.hang /\ ~line.exit /\ exp.valid /\ exp.ret = "nil"
      /\ \E i \in 1..Len(pre.gorder) : ~\E j \in 1..Len(line.calls) : line.calls[j].op = "list_pods" /\ line.calls[j].g = pre.gorder[i]
@@ -473,19 +499,19 @@ C20f(line, pre, exp) ==
 
 -----------------------------------------------------------------------------
 Violations(line, pre, post, exp) ==
-  C01v(line, pre) \cup C02v(line, pre) \cup C03v(line, pre, post) \cup C04v(line, pre, post, exp) \cup C05v(line, pre)
+  C01v(line, pre) \cup C02v(line, pre) \cup C03v(line, pre, post) \cup C04v(line, pre, post, exp) \cup C05v(line, pre) \cup C05z(line, pre)
   \cup C06v(line, pre) \cup C07v(line, pre, post, exp) \cup C08v(line, pre) \cup C09v(line, pre) \cup C10v(line, pre, exp)
-  \cup C11v(line, pre) \cup C12v(line, pre) \cup C12x(line, pre, exp) \cup C13v(line, pre) \cup C15v(line, pre, post) \cup C18v(line, pre, post) \cup C19v(line, pre, exp) \cup C20v(line, pre, exp)
+  \cup C11v(line, pre) \cup C12v(line, pre) \cup C12x(line, pre, exp) \cup C12g(line, pre) \cup C13v(line, pre) \cup C15v(line, pre, post) \cup C18v(line, pre, post) \cup C19v(line, pre, exp) \cup C20v(line, pre, exp)
 
 \* only the predicates of the given property ids (the model asserts one property at a time: evaluating all of them on every
 \* outcome was the dominant cost of model checking)
 ViolationsFor(ids, line, pre, post, exp) ==
   (IF "C01" \in ids THEN C01v(line, pre) ELSE {}) \cup (IF "C02" \in ids THEN C02v(line, pre) ELSE {})
   \cup (IF "C03" \in ids THEN C03v(line, pre, post) ELSE {}) \cup (IF "C04" \in ids THEN C04v(line, pre, post, exp) ELSE {})
-  \cup (IF "C05" \in ids THEN C05v(line, pre) ELSE {}) \cup (IF "C06" \in ids THEN C06v(line, pre) ELSE {})
+  \cup (IF "C05" \in ids THEN C05v(line, pre) \cup C05z(line, pre) ELSE {}) \cup (IF "C06" \in ids THEN C06v(line, pre) ELSE {})
   \cup (IF "C07" \in ids THEN C07v(line, pre, post, exp) ELSE {}) \cup (IF "C08" \in ids THEN C08v(line, pre) ELSE {})
   \cup (IF "C09" \in ids THEN C09v(line, pre) ELSE {}) \cup (IF "C10" \in ids THEN C10v(line, pre, exp) ELSE {})
-  \cup (IF "C11" \in ids THEN C11v(line, pre) ELSE {}) \cup (IF "C12" \in ids THEN C12v(line, pre) \cup C12x(line, pre, exp) ELSE {})
+  \cup (IF "C11" \in ids THEN C11v(line, pre) ELSE {}) \cup (IF "C12" \in ids THEN C12v(line, pre) \cup C12x(line, pre, exp) \cup C12g(line, pre) ELSE {})
   \cup (IF "C13" \in ids THEN C13v(line, pre) ELSE {}) \cup (IF "C15" \in ids THEN C15v(line, pre, post) ELSE {})
   \cup (IF "C18" \in ids THEN C18v(line, pre, post) ELSE {}) \cup (IF "C19" \in ids THEN C19v(line, pre, exp) ELSE {})
   \cup (IF "C20" \in ids THEN C20v(line, pre, exp) ELSE {})
